@@ -6,6 +6,7 @@ import (
 	"fmt"
 	"net"
 	"runtime"
+	"strings"
 	"sync"
 	"testing"
 	"testing/synctest"
@@ -336,6 +337,67 @@ func TestGenC11(t *testing.T) {
 				q.check(rerr == nil && bytes.Equal(buf[:got], msg), "c11:fresh-connection-does-not-work", func() string {
 					return fmt.Sprintf("scenario %d round %d: %d/%d bytes, err %v", sc, round, got, len(msg), rerr)
 				})
+				// the owner of the PREVIOUS connection closes it once more, late (gRPC closes a transport's connection
+				// from Close, from its reader and from its writer goroutine): a Close of a closed connection has no
+				// effect, in particular none on the connection handed out since
+				if rerr == nil && round >= 1 && rr.chance(1, 2) {
+					mu.Lock()
+					var prev []net.Conn
+					if len(sConns) >= 2 && sConns[len(sConns)-2].conn != nil {
+						prev = append(prev, sConns[len(sConns)-2].conn)
+					}
+					if len(cConns) >= 2 && cConns[len(cConns)-2].conn != nil {
+						prev = append(prev, cConns[len(cConns)-2].conn)
+					}
+					mu.Unlock()
+					for _, pc := range prev {
+						_ = pc.Close()
+					}
+					synctest.Wait()
+					msg2 := rr.bytes(1 + rr.intn(100))
+					go func() { _, _ = nC.Write(msg2) }()
+					buf2 := make([]byte, 200)
+					got2 := 0
+					var rerr2 error
+					rdb := make(chan struct{})
+					go func() {
+						defer close(rdb)
+						for got2 < len(msg2) && rerr2 == nil {
+							var k int
+							k, rerr2 = nS.Read(buf2[got2:])
+							got2 += k
+						}
+					}()
+					for i := 0; i < 100; i++ {
+						select {
+						case <-rdb:
+							i = 1000
+						default:
+							time.Sleep(250 * time.Millisecond)
+							synctest.Wait()
+						}
+					}
+					q.check(rerr2 == nil && bytes.Equal(buf2[:got2], msg2), "c12:close-again-of-the-previous-connection-breaks-the-new-one", func() string {
+						return fmt.Sprintf("scenario %d round %d: connection %d had been closed and connection %d handed out and working; after Close was called once more on the handles of connection %d, a transfer on connection %d: %d/%d bytes, err %v", sc, round, round-1, round, round-1, round, got2, len(msg2), rerr2)
+					})
+					{
+						var hs []string
+						for i := 0; i < round; i++ {
+							hs = append(hs, "H", fmt.Sprintf("C%d", i))
+						}
+						res := "ok"
+						if !(rerr2 == nil && bytes.Equal(buf2[:got2], msg2)) {
+							res = "fail"
+						}
+						evMu.Lock()
+						lines = append(lines, fmt.Sprintf("CLOSES %s H C%d T%d=%s", strings.Join(hs, " "), round-1, round, res))
+						evMu.Unlock()
+					}
+					q.stat("late_second_close_of_previous_connection", 1)
+					if rerr2 != nil {
+						break
+					}
+				}
 				// sometimes the connection ends with part of a large record still unread on the server side
 				if rerr == nil && rr.chance(1, 2) {
 					big := rr.bytes(40000)
